@@ -20,9 +20,9 @@ type gatePattern struct {
 	ri        *regexInfo
 	fn        *ssa.Function
 	pos       token.Pos
-	fold      bool // the input is case-folded before the match
+	fold      bool     // the input is case-folded before the match
 	prefixes  []string // literal prefixes the constructor may put in front of the input ("" = none)
-	mandatory bool // a failed match makes fn return a non-nil error
+	mandatory bool     // a failed match makes fn return a non-nil error
 }
 
 var identityOnInput = map[string]bool{
